@@ -179,6 +179,109 @@ theorem stump_update_data_history (cr : CR H) (nonZero : H) (hnz : nonZero ≠ (
   rw [h1, run_append, hF]
   rfl
 
+/-! ### the same for a hash that is NOT collision-free
+
+`CR H` is replaced by `NZ H` (parent hashes are never the zero hash) and the FINITE hypothesis
+`NodesDistinct` on the forest AFTER the block (no non-zero hash sits at two of its places;
+`Proofs/NodesUnique.lean`).  The leaves need not be "not parent hashes", the additions need not
+be new: all of this is subsumed by `NodesDistinct`. -/
+
+/-- the add theorem in terms of `AddDataSpec`, from `NZ` and `NodesDistinct` -/
+theorem stump_add_dataSpec_nd (nz : NZ H) (nonZero : H) (hnz : nonZero ≠ (zero : H)) (G : Forest H)
+    (adds : List H) (hlt : G.numLeaves + adds.length ≤ 2 ^ 63)
+    (hleaf : ∀ x ∈ (G.addMany adds).liveLeaves, x ≠ (zero : H))
+    (hd : NodesDistinct (G.addMany adds)) :
+    ∃ upd td, (stumpOf G).add nonZero adds = .ok (stumpOf (G.addMany adds), upd, td) ∧
+      AddDataSpec G adds upd td := by
+  obtain ⟨upd, td, h1, h2⟩ := stump_add_updateData_nd nz nonZero G (stumpOf G) adds hnz rfl rfl hlt
+    (fun x hx => hleaf x (mem_liveLeaves.2 hx)) hd
+  refine ⟨upd, td, ?_, h2⟩
+  rw [h1]
+  simp only [stumpOf, C01b.numLeaves_addMany]
+
+/-- **C11, the update data of a whole valid block, for a hash that is not collision-free**:
+`NZ H`, and `NodesDistinct (F.modify dels adds)` for the forest after the block. -/
+theorem stump_update_data_nd (nz : NZ H) (nonZero : H) (hnz : nonZero ≠ (zero : H))
+    (F : Forest H) (s : Stump H) (dels adds : List H) (targets : List Pos) (proof junk : List H)
+    (hr : s.roots = F.roots) (hn : s.numLeaves = BitVec.ofNat 64 F.numLeaves)
+    (hlt : F.numLeaves + adds.length ≤ 2 ^ 63)
+    (hnd : F.liveLeaves.Nodup)
+    (hleaf : ∀ x ∈ F.liveLeaves, x ≠ (zero : H)) (hadds : ∀ x ∈ adds, x ≠ (zero : H))
+    (hdn : dels.Nodup) (hc : F.canon dels = some (targets, proof))
+    (hd : NodesDistinct (F.modify dels adds)) :
+    ∃ ud : UpdateData H,
+      s.update nonZero dels adds (encTargets F.rows targets) (proof ++ junk) =
+        .ok (⟨(F.modify dels adds).roots, BitVec.ofNat 64 (F.modify dels adds).numLeaves⟩, ud) ∧
+      ud.prevNumLeaves = BitVec.ofNat 64 F.numLeaves ∧
+      ud.newDel = newDelSpec F dels targets ∧
+      AddDataSpec (F.delLeaves dels) adds ud.newAdd ud.toDestroy := by
+  have hs : s = stumpOf F := by
+    cases s
+    simp only at hr hn
+    subst hr hn
+    rfl
+  subst hs
+  have ok : ForestOK F := ⟨by omega, nz.nonzero, hleaf, hnd⟩
+  have g2 : ∀ x ∈ ((F.delLeaves dels).addMany adds).liveLeaves, x ≠ (zero : H) := by
+    intro x hx
+    rw [liveLeaves_addMany_eq, List.mem_append] at hx
+    rcases hx with hx | hx
+    · exact hleaf x (mem_liveLeaves_delLeaves.1 hx).1
+    · exact hadds x hx
+  obtain ⟨upd, td, hadd, hspec⟩ := stump_add_dataSpec_nd nz nonZero hnz (F.delLeaves dels) adds
+    (by rw [CalcComplete.delLeaves_numLeaves]; exact hlt) g2 hd
+  refine ⟨{ toDestroy := td, prevNumLeaves := BitVec.ofNat 64 F.numLeaves,
+            newDel := newDelSpec F dels targets, newAdd := upd }, ?_, rfl, rfl, hspec⟩
+  rw [stump_update_eq ok junk hdn hc nonZero adds, hadd]
+  rfl
+
+/-- **C11 along every valid history, for a hash that is not collision-free**: as
+`stump_update_data_history`, from `NZ H` and `NodesDistinct` of the specification forest AFTER
+the block in question. -/
+theorem stump_update_data_history_nd (nz : NZ H) (nonZero : H) (hnz : nonZero ≠ (zero : H))
+    (pre post : List (Block H)) (d a : List H) (v : ValidHistory (pre ++ (d, a) :: post))
+    (hd : NodesDistinct (run Forest.empty (pre ++ [(d, a)]))) :
+    ∃ (targets : List Pos) (proof : List H) (ud : UpdateData H),
+      stumpRun nonZero Forest.empty ⟨[], 0#64⟩ pre = some (stumpOf (run Forest.empty pre)) ∧
+      (run Forest.empty pre).canon d = some (targets, proof) ∧
+      (stumpOf (run Forest.empty pre)).update nonZero d a
+          (encTargets (run Forest.empty pre).rows targets) proof =
+        .ok (stumpOf (run Forest.empty (pre ++ [(d, a)])), ud) ∧
+      ud.prevNumLeaves = BitVec.ofNat 64 (run Forest.empty pre).numLeaves ∧
+      ud.newDel = newDelSpec (run Forest.empty pre) d targets ∧
+      AddDataSpec ((run Forest.empty pre).delLeaves d) a ud.newAdd ud.toDestroy := by
+  have inv0 : HistOK (Forest.empty : Forest H) (pre ++ (d, a) :: post) :=
+    ⟨List.nodup_nil, fun x hx => (by cases hx), v.adds_nodup, fun x _ hx => (by cases hx),
+      fun x hx => (v.adds_leaf x hx).1, (by show 0 + _ ≤ _; have := v.small; omega)⟩
+  have invF := inv0.run_prefix
+  have hliveF := (liveDels_append.1 v.live).2
+  have hpre := stumpRun_prefix nz.nonzero nonZero inv0 v.live v.dels_nodup
+  rw [stumpOf_empty] at hpre
+  rw [run_append] at hd
+  generalize hF : run Forest.empty pre = F at *
+  have hsmall : F.numLeaves ≤ 2 ^ 63 := by have := invF.small; omega
+  obtain ⟨targets, proof, hc⟩ := C02.canon_defined hsmall hliveF.1
+  have hleafF : ∀ x ∈ F.liveLeaves, x ≠ (zero : H) := by
+    intro x hx
+    rw [← hF] at hx
+    rcases liveLeaves_run_subset pre _ x hx with h | h
+    · cases h
+    · exact (v.adds_leaf x (by rw [allAdds_append]; exact List.mem_append_left _ h)).1
+  have hadds : ∀ x ∈ a, x ≠ (zero : H) := by
+    intro x hx
+    exact (v.adds_leaf x (by
+      rw [allAdds_append, allAdds_cons]
+      exact List.mem_append_right _ (List.mem_append_left _ hx))).1
+  have hsm := invF.small
+  rw [allAdds_cons, List.length_append] at hsm
+  obtain ⟨ud, h1, h2, h3, h4⟩ := stump_update_data_nd nz nonZero hnz F (stumpOf F) d a targets proof []
+    rfl rfl (by simp only at hsm; omega) invF.live_nodup hleafF hadds
+    (v.dels_nodup (d, a) (by simp)) hc hd
+  rw [List.append_nil] at h1
+  refine ⟨targets, proof, ud, hpre, hc, ?_, h2, h3, h4⟩
+  rw [h1, run_append, hF]
+  rfl
+
 end
 
 /-! ### non-vacuity -/
